@@ -48,6 +48,7 @@
 #include <set>
 #include <map>
 #include <sstream>
+#include <unistd.h>
 #if defined(__has_include)
 #if __has_include(<sanitizer/lsan_interface.h>)
 #include <sanitizer/lsan_interface.h>
@@ -98,9 +99,10 @@ struct Heap {
         }
         r.shuffle(b);
         for (size_t i = 0; i < b.size(); ++i) { if (r.coin(1, 5)) keep.push_back(b[i]); else ::operator delete(b[i]); }
-        // the small size classes used by scan-line Nodes, Events, Variables, Constraints, Blocks, ANodes, set nodes
-        static const size_t classes[] = {16, 24, 32, 40, 48, 56, 64, 72, 80, 96, 112, 128, 160, 192};
-        for (size_t c = 0; c < sizeof classes / sizeof classes[0]; ++c) scramble(r, classes[c], (int) r.range(4, 60));
+        // every small size class (scan-line Nodes, Events, Variables, Constraints, Blocks, ANodes, set/list nodes,
+        // ShapeRef, ConnRef, VertInf …): the next allocations of each class come back in a random address order
+        for (size_t sz = 16; sz <= 512; sz += 16) scramble(r, sz, (int) r.range(4, 40));
+        for (size_t sz = 640; sz <= 2048; sz += 128) scramble(r, sz, (int) r.range(4, 16));
     }
     void release() { for (size_t i = 0; i < keep.size(); ++i) ::operator delete(keep[i]); keep.clear(); }
     // address-order signature of 6 consecutive 56-byte allocations (reported, so that the driver can count
@@ -295,7 +297,7 @@ static void unrelatedWork(vh::Rng &r, Heap &heap) {
 
 static void caseRouteTwice(long k, vh::Rng &r, bool orth) {
     vh::beginCase(k, "route-twice");
-    RScene s = genScene(r, orth, 7, 4);
+    RScene s = genScene(r, orth, 7, orth ? 7 : 4);       // many orthogonal connectors: shared channels => nudging has work to do
     if (r.coin(1, 2) && !s.rects.empty()) {        // second transaction: move one shape a little inside its cell margin
         s.moveIdx = (int) r.range(0, (long) s.rects.size() - 1);
         double step = s.buf > 0 ? 0.25 : 0.5;      // shape (+ buffer) stays strictly inside its cell
@@ -587,10 +589,14 @@ static void caseLayoutTwice(long k, vh::Rng &r) {
     vh::beginCase(k, "layout-twice");
     LScene s;
     int n = (int) r.range(2, 9);
-    bool stacked = r.coin(1, 3);       // all nodes start at the same position: the layout separates them with its PseudoRandom
+    // the first three layout cases of a run let wall-clock time pass between the two runs (> 1 s, so that a
+    // time()-derived seed would differ) and start from coincident nodes (PseudoRandom is used to separate them)
+    bool slow = (k / 11) < 3;
+    bool stacked = slow || r.coin(1, 3);       // all nodes start at the same position: the layout separates them with its PseudoRandom
     for (int i = 0; i < n; ++i) {
         double x = stacked ? 5.0 : (double) r.range(0, 40), y = stacked ? 5.0 : (double) r.range(0, 40);
         double w = (double) r.range(2, 8), h = (double) r.range(2, 8);
+        if (stacked) { x -= w / 2; y -= h / 2; }      // identical CENTRES
         s.rects.push_back(R4{x, y, x + w, y + h});
     }
     int m = (int) r.range(1, 2 * n);
@@ -609,6 +615,7 @@ static void caseLayoutTwice(long k, vh::Rng &r) {
     }
     s.overlaps = r.coin();
     s.iters = (unsigned) r.range(1, 15);
+    if (slow) { s.overlaps = false; s.seps.clear(); }     // nothing separates the coincident nodes before computeForces does (offsetDir)
     printf("n %d\n", n);
     for (const R4 &q : s.rects) printf("r %s %s %s %s\n", H(q.x0).c_str(), H(q.x1).c_str(), H(q.y0).c_str(), H(q.y1).c_str());
     for (auto &e : s.edges) printf("e %u %u\n", e.first, e.second);
@@ -620,6 +627,7 @@ static void caseLayoutTwice(long k, vh::Rng &r) {
     Out a = runLayout(s);
     printOut("A", a); fflush(stdout);
     unrelatedWork(r, heap);
+    if (slow) usleep(1100000);
     long pb = Heap::probe();
     Out b = runLayout(s);
     printOut("B", b);
@@ -633,9 +641,9 @@ int main(int argc, char **argv) {
     vh::Args a = vh::parseArgs(argc, argv);
     bool thorough = a.tier == "thorough";
     g_big = thorough;
-    long rounds = (thorough ? 1200 : 100) * a.scale;
+    long rounds = (thorough ? 1200 : 250) * a.scale;
     if (a.n >= 0) rounds = a.n;
-    const int NCLASS = 11;
+    const int NCLASS = 11;       // caseLayoutTwice relies on this (k / 11 = round)
     for (long k = 0; k < rounds * NCLASS; ++k) {
         if (!a.want(k)) continue;
         vh::Rng r = vh::caseRng(a.seed, (uint64_t) k);
